@@ -185,6 +185,38 @@ theorem poll_refines_tick_loop (fin : List (Option Nat)) (sf tx f k : Nat) (s : 
     .reply tx (tickLoop s.timeout sf fin k (f + 1)).2 ∈ (runTicks fin sf s k (f + 1)).log :=
   runTicks_refines fin sf tx f k s h hk h1 h2
 
+/-- **"Never force"**: whatever the time-out — `u64::MAX` seconds included; a time-out is a duration, nothing is added to
+a clock reading — if every connection in progress ends within it, the worker replies `true` (clean): it waited for
+all of them, and it replied no later than one tick after the last one ended. -/
+theorem huge_timeout_waits (T t0 : Nat) (fin : List (Option Nat)) (hfin : ∀ o ∈ fin, ∃ x, o = some x ∧ x ≤ t0 + T) :
+    (replyTime T t0 fin).2 = true ∧ unfinished fin (replyTime T t0 fin).1 = 0 := by
+  have h := reply_value T t0 fin
+  have key : (replyTime T t0 fin).2 = true := by
+    cases hb : (replyTime T t0 fin).2 with
+    | true => rfl
+    | false =>
+      have hT := h.2 hb
+      have hge : t0 ≤ (replyTime T t0 fin).1 := by
+        unfold replyTime
+        split
+        · exact Nat.le_refl _
+        · have := tickLoop_ge T t0 fin (lastTick T) 1
+          unfold tickTime at this
+          omega
+      have hu : unfinished fin (replyTime T t0 fin).1 = 0 := by
+        unfold unfinished
+        rw [List.length_eq_zero_iff, List.filter_eq_nil_iff]
+        intro o ho
+        obtain ⟨x, rfl, hx⟩ := hfin o ho
+        simp only [decide_eq_true_eq]
+        omega
+      rw [h.1.2 hu] at hb
+      cases hb
+  exact ⟨key, h.1.1 key⟩
+
+example : replyTime (18446744073709551615 * 1000) 0 [some 1200] = (2000, true) ∧
+    replyTime (1000000000000 * 1000) 0 [some 300, some 1300] = (2000, true) := by decide
+
 /-! ### the default configuration (a server on which `ServerBuilder::shutdown_timeout` was never called) -/
 
 /-- **The default `shutdown_timeout` is the documented 30 s** ("By default shutdown timeout sets to 30 seconds"),
